@@ -669,7 +669,7 @@ def sub_run(ctx):
         for level in ("obj", "var"):
             for order in ("eq_ineq", "ineq_eq"):
                 cases.append(gen_case(ctx, systems, level=level, order=order, kind=kind, heavy_ok=not ctx.quick))
-    for _ in range(ctx.n(70, 600) if not getattr(ctx, "widen", False) else 400):
+    for _ in range(ctx.n(70, 600) if not getattr(ctx, "widen", False) else 250):
         cases.append(gen_case(ctx, systems, heavy_ok=not ctx.quick))
     # fuel edge cases: 0 (error branch), 1 (no test at all), 2, 3 and a fuel that is hit exactly
     for mi in (0, 1, 2, 3, 5):
